@@ -704,6 +704,10 @@ func goCode(root string, unit string) string {
 		header("Model.GoSem")
 		text, errs := translateConfig(parseFile(root, "config/config.go"))
 		emit("config/config.go (struct, defaults, postprocess)", text, errs)
+	case "link":
+		header("Model.GoSem", "Model.GoJson", "Model.Link")
+		text, errs := translateLink(root, "pub/link.go")
+		emit("pub/link.go (struct, constructor, methods, selection)", text, errs)
 	default:
 		b.WriteString("-- unknown unit " + unit + "\n")
 	}
